@@ -351,7 +351,7 @@ class Port:
             except BaseException as ex:
                 escaped.append("stop:" + type(ex).__name__)
             for t in started:
-                t.join(20)
+                t.join(120)
                 hang = hang or t.is_alive()
         finally:
             undo()
